@@ -273,19 +273,20 @@ def emit() -> str:
     if not isinstance(bw, int):
         raise ValueError("DEFAULT_BANDWIDTH literal not found")
     game_fc = find_method(class_def(parse("game/game.py"), "PrimaiteGame"), "from_config")
+    # the library's start-up / shut-down duration = what the TRANSLATED statements of from_config (config_resolve: symbolic slice of the
+    # writes of new_node.config.start_up_duration / shut_down_duration) leave when neither the node entry nor the defaults section
+    # has the key - whatever the shape of those statements; if they leave the constructor's value, the schema field's default
+    from harness.extract import config_resolve as _xr   # (imported here: config_resolve imports LOADER_FUNCTIONS from this module)
+    _sl = _xr.slices()
     durs = {}
-    for node in ast.walk(game_fc):
-        # node_cfg.get("start_up_duration", defaults_config.get("node_start_up_duration", 3)): own value, else the defaults
-        # section's, else the literal
-        if isinstance(node, ast.Call) and ast.unparse(node.func) == "node_cfg.get" and len(node.args) == 2 and \
-                isinstance(node.args[0], ast.Constant) and node.args[0].value in ("start_up_duration", "shut_down_duration"):
-            inner = node.args[1]
-            key = node.args[0].value
-            if isinstance(inner, ast.Call) and ast.unparse(inner.func) == "defaults_config.get" and len(inner.args) == 2 and \
-                    isinstance(inner.args[0], ast.Constant) and inner.args[0].value == "node_" + key and isinstance(inner.args[1], ast.Constant):
-                durs[key] = inner.args[1].value
-    if set(durs) != {"start_up_duration", "shut_down_duration"}:
-        raise ValueError("node_cfg.get('start_up_duration', n) / shut_down_duration not found")
+    for key, site in (("start_up_duration", "nodeStartUp"), ("shut_down_duration", "nodeShutDown")):
+        sentinel = object()
+        v = _xr.evaluate(_sl[site]["expr"], own=_xr.ABSENT, dflt=_xr.ABSENT, init=sentinel)
+        if v is sentinel:
+            v = _field_default("simulator/network/hardware/base.py", "Node", key)
+        if not isinstance(v, int) or isinstance(v, bool):
+            raise ValueError(f"{key}: the loader statements leave {v!r} when no source has the key")
+        durs[key] = v
     # the defaults section: key tested == key read
     defaults_ok = True
     for node in ast.walk(game_fc):
